@@ -333,3 +333,35 @@ def _fm_post(c):
 
 
 contract(BZP + '::findMatch(int) const', pure=True, props=['C02'], requires=_fm_pre, ensures=_fm_post, unroll=6)
+
+
+# ---- createTransition --------------------------------------------------------------------------------------------
+CT = BZP + '::createTransition(signed char, unsigned char, ace_time::basic::ZoneEraBroker, ace_time::basic::ZoneRuleBroker)'
+
+
+def _ct_pre(c):
+    res, year, month, era, rule = c.args
+    rb = c.ex.ptr_to_bv(rule)
+    return [c.ex.ptr_to_bv(era) != 0]
+
+
+def _ct_post(c):
+    res, year, month, era, rule = c.args
+    eb, rb = c.ex.ptr_to_bv(era), c.ex.ptr_to_bv(rule)
+    g = lambda n: c.new.field(res, TRANS, n)
+    ef = lambda n: c.old.field(era, ERA, n)
+    rf = lambda n: c.old.field(rule, RULE, n)
+    delta = z3.If(rb == 0, sx(ef('deltaCode'), 16) * 15, sx(rf('deltaCode'), 16) * 15)
+    mon = z3.If(month != 0, month, z3.If(rb == 0, z3.BitVecVal(1, 8), rf('inMonth')))
+    ab0 = c.new.load(c.ex.ptr_add(res, c.mod.field(TRANS, 'abbrev')[0]), 1)
+    return [('era-and-rule-recorded', z3.And(g('era') == eb, g('rule') == rb)),
+            ('start-not-yet-computed', g('startEpochSeconds') == 0),
+            ('year-recorded', g('yearTiny') == year),
+            ('month-given-or-of-the-rule-or-january', g('month') == mon),
+            ('dst-shift-of-the-rule-or-of-the-era', g('deltaMinutes') == delta),
+            ('total-offset-is-era-offset-plus-dst-shift', g('offsetMinutes') == sx(ef('offsetCode'), 16) * 15 + delta),
+            ('letter-of-the-rule-or-none', ab0 == z3.If(rb == 0, z3.BitVecVal(0, 8), rf('letter')))]
+
+
+contract(CT, props=['C02'], lang_requires=lambda c: [valid_ptr(c.ex, c.args[3], 24)] + [z3.Implies(c.ex.ptr_to_bv(c.args[4]) != 0, valid_ptr(c.ex, c.args[4], 9))],
+         requires=_ct_pre, ensures=_ct_post, assigns=lambda c: [(c.args[0], sizeof(c.mod, TRANS))])
